@@ -30,6 +30,7 @@ import (
 	psspb "github.com/tink-crypto/tink-go/v2/proto/rsa_ssa_pss_go_proto"
 	tinkpb "github.com/tink-crypto/tink-go/v2/proto/tink_go_proto"
 	"github.com/tink-crypto/tink-go/v2/signature"
+	"github.com/tink-crypto/tink-go/v2/signature/compositemldsa"
 	"github.com/tink-crypto/tink-go/v2/signature/mldsa"
 	"github.com/tink-crypto/tink-go/v2/signature/slhdsa"
 	"github.com/tink-crypto/tink-go/v2/streamingaead"
@@ -166,6 +167,15 @@ var paramBases = map[string]func() (key.Parameters, error){
 	"HpkePrivateKey/HPKE_MLKEM768_SHA256_AES256GCM": func() (key.Parameters, error) {
 		return hpke.NewParameters(hpke.ParametersOpts{KEMID: hpke.ML_KEM768, KDFID: hpke.HKDFSHA256, AEADID: hpke.AES256GCM, Variant: hpke.VariantTink})
 	},
+	"CompositeMlDsaPrivateKey/COMPOSITE_MLDSA65_ED25519": func() (key.Parameters, error) {
+		return compositemldsa.NewParameters(compositemldsa.Ed25519, compositemldsa.MLDSA65, compositemldsa.VariantTink)
+	},
+	"CompositeMlDsaPrivateKey/COMPOSITE_MLDSA65_ECDSA_P256": func() (key.Parameters, error) {
+		return compositemldsa.NewParameters(compositemldsa.ECDSAP256, compositemldsa.MLDSA65, compositemldsa.VariantTink)
+	},
+	"CompositeMlDsaPrivateKey/COMPOSITE_MLDSA87_ECDSA_P384": func() (key.Parameters, error) {
+		return compositemldsa.NewParameters(compositemldsa.ECDSAP384, compositemldsa.MLDSA87, compositemldsa.VariantTink)
+	},
 	"JwtMlDsaPrivateKey/JWT_ML_DSA_65": func() (key.Parameters, error) {
 		return jwtmldsa.NewParameters(jwtmldsa.Base64EncodedKeyIDAsKID, jwtmldsa.MLDSA65)
 	},
@@ -175,7 +185,7 @@ var paramBases = map[string]func() (key.Parameters, error){
 var publicOf = map[string]string{
 	"EcdsaPublicKey": "EcdsaPrivateKey", "Ed25519PublicKey": "Ed25519PrivateKey",
 	"RsaSsaPkcs1PublicKey": "RsaSsaPkcs1PrivateKey", "RsaSsaPssPublicKey": "RsaSsaPssPrivateKey",
-	"MlDsaPublicKey": "MlDsaPrivateKey", "SlhDsaPublicKey": "SlhDsaPrivateKey",
+	"MlDsaPublicKey": "MlDsaPrivateKey", "SlhDsaPublicKey": "SlhDsaPrivateKey", "CompositeMlDsaPublicKey": "CompositeMlDsaPrivateKey",
 	"HpkePublicKey": "HpkePrivateKey", "EciesAeadHkdfPublicKey": "EciesAeadHkdfPrivateKey",
 	"JwtEcdsaPublicKey": "JwtEcdsaPrivateKey", "JwtRsaSsaPkcs1PublicKey": "JwtRsaSsaPkcs1PrivateKey",
 	"JwtRsaSsaPssPublicKey": "JwtRsaSsaPssPrivateKey", "JwtMlDsaPublicKey": "JwtMlDsaPrivateKey",
